@@ -222,6 +222,24 @@ PROPS = {
         note="Lean kernel + propext/Classical.choice/Quot.sound; model tied by sampling; defect D8 repaired by a fix: commit.",
         technique="Lean 4 theorems over an executable model + differential correspondence with the Go code",
     ),
+    "C14": dict(
+        modules=["SpatialId.Props.C14", "SpatialId.Props.C06"],
+        families=[("corridor", 400, 3000), ("corridordet", 150, 1000), ("corridorD9", 1, 1)],
+        trusted_base=COMMON_TB + ["closest_go (convex-hull distance), geodesy_go and the clearance fit built on them are oracles: the "
+                                  "harness evaluates them with the same library calls for every line voxel and candidate voxel"],
+        assumptions=["hZoom >= 8 in the generator (the layer fit does not terminate on grids with few columns); radii up to 1.4 voxel widths"],
+        claim="Theorems (Props/C14.lean) for every value of the three oracles: the result contains every ID of the line, is "
+              "duplicate-free and at the line's zooms; with zero layers (radius 0) it is exactly the line; every additional ID is "
+              "a non-zero shift of a line voxel within the fitted layer counts; the measured result is a subset of the unmeasured "
+              "one and every added voxel passed the distance test; line errors and a negative radius are errors; and a witness "
+              "that two line voxels with different fitted layers give different results (corr_order_dependent_witness). "
+              "The implementation's result must equal the model's result for the layer counts of SOME line voxel (the harness "
+              "supplies line, fit and distance tables from the same library calls). Six identical calls are compared "
+              "(corridordet).",
+        note="partial: geometry (distances, clearance fit) is validated through oracles, not proved. Known finding D9: the result is "
+             "not deterministic when line voxels disagree on the fitted layer counts.",
+        technique="Lean 4 theorems over an oracle-parametric model + differential correspondence with oracle tables",
+    ),
     "C15": dict(
         modules=["SpatialId.Props.C15", "SpatialId.Props.C01", "SpatialId.Props.C02", "SpatialId.Props.C03", "SpatialId.Props.C04",
                  "SpatialId.Props.C05", "SpatialId.Props.C08", "SpatialId.Props.C10", "SpatialId.Props.C11", "SpatialId.Props.C13"],
@@ -338,5 +356,6 @@ KNOWN_PREDICATES = {
     # the driver's property checker tags the failure; the finding matches only its own tag
     "detail_prefix": lambda fields, detail, params: detail.startswith(params["prefix"]),
     # D15: tagged either by the driver's checker (proj) or by the harness's round trip (projrt), only for |alt| > 1e4 m
+    "impl_prefix": lambda fields, detail, params: fields[-1].startswith(params["prefix"]),
     "d15": lambda fields, detail, params: detail.startswith("D15ALT") or fields[-1].startswith("D15ALT"),
 }
